@@ -9,8 +9,70 @@ PROP = 'C05'
 PROOF_FILES = [f for f in ['proofs/FrameLib.v', 'proofs/C05Proofs.v'] if os.path.exists(os.path.join('/verif/coq', f))]
 
 
+def float_queue_post(tier, seed):
+    """Float times and delays (the Coq model is over Z): a reference queue kept by the harness in the same float arithmetic --
+    due = time + delay, consumption order (due, arrival), an event is consumed by the first step whose time is >= its due time
+    and by none before -- is compared with the real interpreter on a statechart that reacts to nothing.  A test, not a proof."""
+    def run(v, charts, cases, masks):
+        import random
+        from sismic.clock import SimulatedClock
+        from sismic.interpreter import Interpreter
+        from sismic.model import BasicState, CompoundState, Event, Statechart
+        rng = random.Random(seed * 131 + 5)
+        n = 150 if tier == 'quick' else 3000
+        nv, steps = 0, 0
+        delays = [0, 0.0, 1, 2, 0.5, 0.1, 0.2, 0.30000000000000004, 1e-7, 2e-7, 4e-7, 1.6e-6, 1e-9, 2.5, 1e3, 7, 1 / 3]
+        for k in range(n):
+            sc = Statechart('sink')
+            sc.add_state(CompoundState('r', initial='a'), None)
+            sc.add_state(BasicState('a'), 'r')
+            clock = SimulatedClock()
+            base = rng.choice([0, 0, 0.0, 1, 1700000000, 1700000000.5, 1e9, 123456.789])
+            clock.time = base
+            it = Interpreter(sc, clock=clock)
+            it.execute_once()
+            ref = []       # (due, arrival, name)
+            arrival = 0
+            bad = None
+            script = []
+            for j in range(rng.randint(6, 25)):
+                r = rng.random()
+                if r < 0.45:
+                    d = rng.choice(delays)
+                    name = 'ev%d' % arrival
+                    it.queue(Event(name, delay=d) if d != 0 or rng.random() < 0.5 else Event(name))
+                    ref.append((it.time + d, arrival, name))
+                    arrival += 1
+                    script.append(('queue', name, d))
+                elif r < 0.7:
+                    inc = rng.choice([0, 1, 0.1, 1e-7, 3e-7, 1.6e-6, 0.5, 2, 1e-9])
+                    clock.time = clock.time + inc
+                    script.append(('clock+', inc))
+                else:
+                    now = clock.time
+                    m = it.execute_once()
+                    steps += 1
+                    due = sorted(x for x in ref if x[0] <= now)
+                    want = due[0][2] if due else None
+                    got = m.event.name if (m is not None and m.event is not None) else None
+                    script.append(('exec', now, got))
+                    if got != want:
+                        bad = dict(step_time=now, consumed=got, expected=want, pending=[(x[2], x[0]) for x in sorted(ref)])
+                        break
+                    if due:
+                        ref.remove(due[0])
+            if bad:
+                nv += 1
+                v.violation(dict(property=PROP, clause='with float times: the event consumed is not the earliest-due pending event '
+                                                        '(due = time + delay) / an event is consumed before it is due or not as soon as it '
+                                                        'is due (C05_delay, C05_which)', start_time=base, script=script, detail=bad),
+                            tag='float%d' % k)
+        return nv, dict(float_queue_runs=n, float_queue_steps=steps)
+    return run
+
+
 def main(tier, seed):
-    return icheck.run(PROP, tier, seed, genchart.Profile(p_send=0.6, p_action=0.8, p_contract=0.05), ifam.ScenarioSpec(p_queue=0.5, p_clock=0.2, n_ops=(10, 28), p_mirror=0.45), icheck.interest_c05, PROOF_FILES, assumptions=['integer times and delays'])
+    return icheck.run(PROP, tier, seed, genchart.Profile(p_send=0.6, p_action=0.8, p_contract=0.05), ifam.ScenarioSpec(p_queue=0.5, p_clock=0.2, n_ops=(10, 28), p_mirror=0.45, clock_offset=0.15), icheck.interest_c05, PROOF_FILES, post=float_queue_post(tier, seed), assumptions=['integer times and delays'])
 
 
 replay = icheck.replay
